@@ -162,9 +162,25 @@ def w_accessor(w, cfg):
     w.res.encoded.update(it.encoded)
 
 
+def w_strides(w, cfg):
+    """The kernel is handed whatever 1-d views the caller has (a column of a calendar table, every second element ...): no argument
+    may be declared with a fixed memory layout, or the compiled loop reads the wrong cells of a strided view."""
+    from pysym.sig import gufunc_contiguous_args
+    it = C.new_interp(policy="exact")
+    fn = it.get_function("hdc.algo.ops.tinterpolate", "tinterpolate")
+    w.res.encoded.update(it.encoded)
+    fixed = gufunc_contiguous_args(fn)
+    n = z3.Int("stride")
+    w.discharge("tinterpolate.arguments_accept_any_stride", [n >= 2], z3.BoolVal(not fixed),
+                concretize=lambda m: {"name": "strided", "x": [120, 340, 560, 780], "template": [1, 0, 0, 1, 1, 0, 1, 0], "labels": [1, 1, 1, 1, 2, 2, 2, 2],
+                                      "mode": "strided", "declared": [t for _, _, t in fixed], "stride": C.model_value(m, n)})
+
+
 def worker(w, cfg):
     if cfg["kind"] == "accessor":
         return w_accessor(w, cfg)
+    if cfg["kind"] == "strides":
+        return w_strides(w, cfg)
     return w_layout(w, cfg)
 
 
@@ -176,6 +192,7 @@ def configs(tier):
                 continue
             cf.append({"kind": "layout", "name": name, "template": template, "labels": labels, "mode": mode})
     cf.append({"kind": "accessor"})
+    cf.append({"kind": "strides"})
     return cf
 
 
